@@ -10,9 +10,12 @@
 package c07
 
 import (
+	"testing/fstest"
+
 	"context"
 	"errors"
 	"fmt"
+	"github.com/risor-io/risor/importer"
 	"strings"
 	"sync/atomic"
 
@@ -32,19 +35,39 @@ var ones = strings.Repeat("1, ", 120)
 
 // invocation kinds
 var kinds = map[string]string{
-	"a":        "s := 0\nfor i := range 4 { s += i }\ns",
-	"b":        "\"b\" + string(len([1, 2, 3]))",
-	"err0":     "x := 1\n[1][5]",
-	"err2":     "func g(d) { if d == 0 { return {}[\"k\"] }\n return g(d - 1) }\ng(2)",
-	"panic":    "z := 0\n1 / z",
-	"overflow": "func r(n) { return r(n + 1) }\nr(0)",
-	"cancel":   "s := 0\nfor i := range 6 { s += i }\ns",
-	"deff":     "k := 10\nfunc boom() { z := 0\n return 1 / z }\nfunc f(n) { c := func() { return n }\n if n == -2 { return [" + ones + "f(n)] }\n if n == -3 { return [boom()] }\n if n < 0 { [1][5] }\n t := k\n for i := range n { t += i }\n return t + c() * 100 }\n7",
-	"callf":    "", // Call(f, 3) with f taken from the VM after the last deff
-	"callferr": "", // Call(f) with a wrong argument count
-	"callfail": "", // Call(f, -1): f fails with a runtime error after it has created a closure over its parameter
-	"callpanic": "", // Call(f, -3): a Go panic (division by zero) two frames below the call, recovered by Call
-	"callover": "", // Call(f, -2): f recurses until the operand stack overflows (a recovered Go panic many frames deep)
+	"a":          "s := 0\nfor i := range 4 { s += i }\ns",
+	"b":          "\"b\" + string(len([1, 2, 3]))",
+	"err0":       "x := 1\n[1][5]",
+	"err2":       "func g(d) { if d == 0 { return {}[\"k\"] }\n return g(d - 1) }\ng(2)",
+	"panic":      "z := 0\n1 / z",
+	"overflow":   "func r(n) { return r(n + 1) }\nr(0)",
+	"cancel":     "s := 0\nfor i := range 6 { s += i }\ns",
+	"deff":       "k := 10\nfunc boom() { z := 0\n return 1 / z }\nfunc f(n) { c := func() { return n }\n if n == -2 { return [" + ones + "f(n)] }\n if n == -3 { return [boom()] }\n if n == -4 { import flaky\n return [flaky.before, flaky.after] }\n if n < 0 { [1][5] }\n t := k\n for i := range n { t += i }\n return t + c() * 100 }\n7",
+	"callf":      "", // Call(f, 3) with f taken from the VM after the last deff
+	"callferr":   "", // Call(f) with a wrong argument count
+	"callfail":   "", // Call(f, -1): f fails with a runtime error after it has created a closure over its parameter
+	"callpanic":  "", // Call(f, -3): a Go panic (division by zero) two frames below the call, recovered by Call
+	"callimport": "", // Call(f, -4): f imports a file module whose top-level code fails half way; every attempt fails alike
+	"callover":   "", // Call(f, -2): f recurses until the operand stack overflows (a recovered Go panic many frames deep)
+}
+
+// flakyImporter serves one file module whose top-level code raises an error between two assignments.
+func flakyImporter(env *rt.Env) *importer.FSImporter {
+	return importer.NewFSImporter(importer.FSImporterOptions{
+		GlobalNames: env.Names,
+		SourceFS:    fstest.MapFS{"flaky.risor": &fstest.MapFile{Data: []byte("before := 1\n[1][5]\nafter := 2\n")}},
+	})
+}
+
+// safeInspect renders a result; a value that cannot be rendered (a Go nil inside a container) is a
+// result like any other, not a crash of the harness.
+func safeInspect(o object.Object) (s string) {
+	defer func() {
+		if e := recover(); e != nil {
+			s = fmt.Sprintf("<value that panics when inspected: %v>", e)
+		}
+	}()
+	return o.Inspect()
 }
 
 type history []string
@@ -101,7 +124,7 @@ func invoke(m *vm.VirtualMachine, st *state, kind string, ctx context.Context, f
 	spBefore := m.VerifSP()
 	fpBefore := m.VerifFP()
 	switch kind {
-	case "callf", "callferr", "callfail", "callpanic", "callover":
+	case "callf", "callferr", "callfail", "callpanic", "callimport", "callover":
 		if *fn == nil {
 			return result{Err: "no function", Class: "harness"}
 		}
@@ -117,6 +140,9 @@ func invoke(m *vm.VirtualMachine, st *state, kind string, ctx context.Context, f
 		}
 		if kind == "callpanic" {
 			args = []object.Object{object.NewInt(-3)}
+		}
+		if kind == "callimport" {
+			args = []object.Object{object.NewInt(-4)}
 		}
 		val, err = m.Call(ctx, *fn, args)
 	default:
@@ -143,23 +169,23 @@ func invoke(m *vm.VirtualMachine, st *state, kind string, ctx context.Context, f
 		return result{Err: err.Error(), Class: cls, IsCtx: errors.Is(err, context.Canceled), FP: fpd}
 	}
 	sp := m.VerifSP() + 1 // RunCode: exactly the result on the stack
-	if kind == "callf" || kind == "callferr" || kind == "callfail" || kind == "callpanic" || kind == "callover" {
+	if kind == "callf" || kind == "callferr" || kind == "callfail" || kind == "callpanic" || kind == "callimport" || kind == "callover" {
 		sp = m.VerifSP() - spBefore // Call: leaves the stack as it found it
 	}
 	if val == nil {
 		return result{Val: "<no value>", SP: sp, FP: fpd}
 	}
-	return result{Val: val.Inspect(), SP: sp, FP: fpd}
+	return result{Val: safeInspect(val), SP: sp, FP: fpd}
 }
 
 // expected computes the result of each invocation kind on a fresh VM (after the deff it depends on).
 func expected(codes map[string]*compiler.Code, env *rt.Env) map[string]result {
 	out := map[string]result{}
 	for k := range kinds {
-		m := vm.New(codes["b"], vm.WithGlobals(env.Globals), vm.WithOS(env.OS))
+		m := vm.New(codes["b"], vm.WithGlobals(env.Globals), vm.WithOS(env.OS), vm.WithImporter(flakyImporter(env)))
 		st := &state{codes: codes}
 		var fn *object.Function
-		if k == "callf" || k == "callferr" || k == "callfail" || k == "callpanic" || k == "callover" {
+		if k == "callf" || k == "callferr" || k == "callfail" || k == "callpanic" || k == "callimport" || k == "callover" {
 			invoke(m, st, "deff", context.Background(), &fn)
 		}
 		out[k] = invoke(m, st, k, context.Background(), &fn)
@@ -239,7 +265,7 @@ func (c caseT) scenario(exp map[string]result) *dsched.Scenario {
 				return
 			}
 			st.codes = codes
-			m := vm.New(codes["b"], vm.WithGlobals(st.env.Globals), vm.WithOS(st.env.OS))
+			m := vm.New(codes["b"], vm.WithGlobals(st.env.Globals), vm.WithOS(st.env.OS), vm.WithImporter(flakyImporter(st.env)))
 			var fn *object.Function
 			for i, k := range c.H {
 				if t := x.Task(0); t != nil {
@@ -307,7 +333,7 @@ func histories(alpha []string, maxLen int) []history {
 			return
 		}
 		for _, a := range alpha {
-			if (a == "callf" || a == "callferr" || a == "callfail" || a == "callpanic" || a == "callover") && !contains(h, "deff") {
+			if (a == "callf" || a == "callferr" || a == "callfail" || a == "callpanic" || a == "callimport" || a == "callover") && !contains(h, "deff") {
 				continue
 			}
 			rec(append(h, a))
@@ -352,17 +378,17 @@ func Check(r *ev.Run, replay string) {
 		r.Set("traces_validated_against_impl", 1)
 		return
 	}
-	alpha := []string{"a", "err0", "panic", "cancel", "deff", "callf", "callfail", "callpanic"}
+	alpha := []string{"a", "err0", "panic", "cancel", "deff", "callf", "callfail", "callpanic", "callimport"}
 	maxLen, bound, limit := 3, 1, 12000
 	if r.Thorough() {
-		alpha = []string{"a", "b", "err0", "err2", "panic", "cancel", "deff", "callf", "callferr", "callfail", "callpanic", "callover", "overflow"}
+		alpha = []string{"a", "b", "err0", "err2", "panic", "cancel", "deff", "callf", "callferr", "callfail", "callpanic", "callimport", "callover", "overflow"}
 		maxLen, bound, limit = 3, 2, 30000
 	}
 	finePoints = r.Thorough()
 	hs := histories(alpha, maxLen)
 	if r.Thorough() {
 		// length 4 over the smaller alphabet, one deviation
-		for _, h := range histories([]string{"a", "err0", "panic", "cancel", "deff", "callf", "callfail", "callpanic"}, 4) {
+		for _, h := range histories([]string{"a", "err0", "panic", "cancel", "deff", "callf", "callfail", "callpanic", "callimport"}, 4) {
 			if len(h) == 4 {
 				hs = append(hs, h)
 			}
@@ -448,7 +474,7 @@ func signature(c caseT, v string) string {
 	var k string
 	if _, err := fmt.Sscanf(v, "invocation %d (%s", &idx, &k); err == nil && idx < len(c.H) {
 		k = c.H[idx]
-		if k == "callf" || k == "callferr" || k == "callfail" || k == "callpanic" || k == "callover" {
+		if k == "callf" || k == "callferr" || k == "callfail" || k == "callpanic" || k == "callimport" || k == "callover" {
 			last := -1
 			for i := 0; i < idx; i++ {
 				if c.H[i] == "deff" {
@@ -456,7 +482,7 @@ func signature(c caseT, v string) string {
 				}
 			}
 			for i := last + 1; i < idx; i++ {
-				if c.H[i] != "callf" && c.H[i] != "callferr" && c.H[i] != "callfail" && c.H[i] != "callpanic" && c.H[i] != "callover" {
+				if c.H[i] != "callf" && c.H[i] != "callferr" && c.H[i] != "callfail" && c.H[i] != "callpanic" && c.H[i] != "callimport" && c.H[i] != "callover" {
 					return "C07:" + kind + ":call-of-function-whose-code-was-replaced-by-a-later-RunCode"
 				}
 			}
